@@ -76,12 +76,12 @@ def coverage_extra(tier, col):
 # datasets
 
 
-def build(seed, ds_id, tag, bad_locus=None):
+def build(seed, ds_id, tag, bad_locus=None, depth=(8, 16)):
     rng = gen.rng_for(seed, ID, 1000 + ds_id, 0)
     root = env.workdir("c08-%s" % tag)
     shutil.rmtree(root, ignore_errors=True)
     n_loci = int(rng.integers(5, 9))
-    ds = datasets.make_dataset(rng, root, n_samples=3, n_loci=n_loci, ploidy=[4], depth=(8, 16), contig_len=900, snv_range=(1, 4), hostile=0.1)
+    ds = datasets.make_dataset(rng, root, n_samples=3, n_loci=n_loci, ploidy=[4], depth=depth, contig_len=900, snv_range=(1, 4), hostile=0.1)
     # haplotype VCF from the true genotypes (REF = locus reference sequence, ALTs = distinct true haplotypes)
     recs = []
     for L in ds.loci:
